@@ -247,10 +247,10 @@ func (s *Storer) GetReader(offset int64, verifyCrc bool) (*Reader, error) {
 	s.mux.RLock()
 	defer s.mux.RUnlock()
 
-	s.dataSetMux.Lock()
-	defer s.dataSetMux.Unlock()
-
-	ds := s.dataSet
+	// s.mux keeps the data set from being replaced; dataSetMux must not be held while the
+	// reader is built : with verifyCrc the reader asks the storer (hasWriter -> getDataSet)
+	// and sync.RWMutex is not reentrant
+	ds := s.getDataSet()
 	if !ds.InRange(offset) {
 		return nil, os.ErrNotExist
 	}
